@@ -164,11 +164,7 @@ func fill(r gen.R, v reflect.Value, vals rm.Vals, zeroDates bool) {
 				vals[name] = rm.DateTimeVal(y, int(m), d, h, mi, s)
 			}
 		case tSysDate:
-			d := r.Date()
-			d.Y = 2000 + r.Pick(69)
-			if d.D > rm.DaysIn(d.Y, d.Mo) {
-				d.D = rm.DaysIn(d.Y, d.Mo)
-			}
+			d := r.SysDate()
 			set(reflect.ValueOf(types.SystemDate(time.Date(d.Y, time.Month(d.Mo), d.D, 12, 0, 0, 0, time.UTC))))
 			vals[name] = rm.Val{K: rm.SysDate, Y: d.Y, Mo: d.Mo, D: d.D}
 		case tSysTime:
